@@ -159,6 +159,22 @@ def inject_nonfinite(r, rows, kind):
         rows[r.randint(0, n - 1)][r.randint(0, d - 1)] = float("nan") if kind == "nan" else math.inf
 
 
+def gen_weights(r, n):
+    """per-record weights (a keyword that carries per-record data): non-integer floats, integers, zeros, one dominant"""
+    kind = r.choice(["float", "float", "float", "int", "zeros", "dominant", "mixed"])
+    if kind == "float":
+        return [round(r.uniform(0.05, 3.0), r.choice([1, 2, 6])) + r.choice([0.0, 0.25, 0.3]) for _ in range(n)]
+    if kind == "int":
+        return [float(r.randint(0, 4)) for _ in range(n)]
+    if kind == "zeros":
+        return [0.0] * n
+    if kind == "dominant":
+        w = [r.uniform(0.0, 0.2) for _ in range(n)]
+        w[r.randint(0, n - 1)] = r.choice([1000.5, 37.75, 1e6 + 0.5])
+        return w
+    return [r.choice([0.0, 1.0, 0.5, r.uniform(0, 10)]) for _ in range(n)]
+
+
 def big_grid_cases(r, ctx):
     """grids with more than 2**16 cells and few records: every released cell must have gone through a mechanism"""
     combos = [("histogram2d", [300, 250]), ("histogramdd", [41, 41, 41]), ("histogram", [70000])]
@@ -179,6 +195,8 @@ def big_grid_cases(r, ctx):
 
 def gen_tool_case(r, ctx, tool):
     case = _gen_tool_case(r, ctx, tool)
+    if tool in ("histogram", "histogram2d", "histogramdd") and r.chance(0.4):
+        case["W"] = [gen_weights(r, len(D)) for D in case["D"]]
     if not case["params"].get("dtype_int") and r.chance(0.12):
         kind = case["nonfinite"] = r.choice(["nan", "inf"])
         for D in case["D"]:
@@ -272,15 +290,16 @@ def run_tool(case, which, force):
                 X = np.array(vals, dtype=float)
                 bins = [np.array(b) if isinstance(b, list) else b for b in p["bins"]]
                 rng_ = [tuple(ab) for ab in p["range"]]
+                wkw = {"weights": np.array(case["W"][which], dtype=float)} if case.get("W") else {}
                 if tool == "histogram":
                     out = T.histogram(X[:, 0], epsilon=p["epsilon"], bins=bins[0], range=rng_[0], density=p["density"],
-                                      random_state=case["seed"], accountant=acc)
+                                      random_state=case["seed"], accountant=acc, **wkw)
                 elif tool == "histogram2d":
                     out = T.histogram2d(X[:, 0], X[:, 1], epsilon=p["epsilon"], bins=bins, range=rng_,
-                                        density=p["density"], random_state=case["seed"], accountant=acc)
+                                        density=p["density"], random_state=case["seed"], accountant=acc, **wkw)
                 else:
                     out = T.histogramdd(X, epsilon=p["epsilon"], bins=bins, range=rng_, density=p["density"],
-                                        random_state=case["seed"], accountant=acc)
+                                        random_state=case["seed"], accountant=acc, **wkw)
                     out = (out[0],) + tuple(out[1])
                 rel = {f"out[{i}]": o for i, o in enumerate(out)}
             else:
@@ -365,6 +384,10 @@ def gen_model_case(r, ctx, model):
         X1 = case["X"] = [list(row) for row in case["X"]]
         inject_nonfinite(r, X1, kind)
         inject_nonfinite(r, X2, kind)
+    if model in ("gnb", "kmeans", "scaler", "linreg", "forest", "tree") and r.chance(0.2):
+        # `sample_weight` is accepted (and documented as ignored) by these estimators: different weights on the two
+        # datasets must not reach a release
+        case["SW"] = [gen_weights(r, len(case["X"])), gen_weights(r, len(X2))]
     case["entry"] = model
     case["sched"] = r.randint(0, 10 ** 9)
     case["D2kind"] = kind
@@ -512,17 +535,22 @@ def run_model(case, which, force):
                 if case.get("sparse"):
                     import scipy.sparse as sp
                     args = (sp.csr_matrix(args[0]),) + tuple(args[1:])
+                sw = np.array(case["SW"][which], dtype=float) if case.get("SW") else None
+
+                def swkw(a=None, b=None):
+                    return {} if sw is None else {"sample_weight": sw[a:b]}
                 if case.get("partial"):
                     bt = batches_of(case, len(X))
                     if case["model"] == "gnb":
                         (a0, b0), (a1, b1) = bt
-                        model.partial_fit(args[0][a0:b0], args[1][a0:b0], classes=list(range(case["params"]["k"])))
-                        model.partial_fit(args[0][a1:b1], args[1][a1:b1])
+                        model.partial_fit(args[0][a0:b0], args[1][a0:b0], classes=list(range(case["params"]["k"])),
+                                          **swkw(a0, b0))
+                        model.partial_fit(args[0][a1:b1], args[1][a1:b1], **swkw(a1, b1))
                     else:
                         for op, (a, b) in zip(case.get("seq") or ["partial_fit", "partial_fit"], bt):
-                            getattr(model, op)(args[0][a:b])
+                            getattr(model, op)(args[0][a:b], **swkw(a, b))
                 else:
-                    model.fit(*args)
+                    model.fit(*args, **swkw())
             except REFUSALS as e:
                 err = e
     if err is not None:
